@@ -1,5 +1,6 @@
 mod util;
 mod p_c13;
+mod p_c16;
 mod p_c28;
 mod p_c30;
 mod p_c29;
@@ -60,6 +61,9 @@ fn main() {
     util::silence_panics();
     match a[1].as_str() {
         "c13" => p_c13::run(&o),
+        "c18" => p_c16::run(&o, 18),
+        "c17" => p_c16::run(&o, 17),
+        "c16" => p_c16::run(&o, 16),
         "c28" => p_c28::run(&o),
         "c30" => p_c30::run(&o),
         "c29" => p_c29::run(&o),
